@@ -86,9 +86,9 @@ Proof. destruct t as [i ch]. reflexivity. Qed.
 Lemma root_damage_flaginv st d : FlagInv st -> FlagInv (root_damage st d).
 Proof.
   intros [H1 H2]. unfold root_damage.
-  destruct (rs_contains rsfuel (r_damage st) d) as [[|]|].
+  destruct (rs_contains (r_fuel st) (r_damage st) d) as [[|]|].
   - split; assumption.
-  - destruct (rs_add rsfuel (r_damage st) d) as [s|].
+  - destruct (rs_add (r_fuel st) (r_damage st) d) as [s|].
     + unfold FlagInv; cbn [r_damage r_queue r_nexp r_later set_flags set_damage].
       split; intros _; [split|]; reflexivity.
     + unfold FlagInv; cbn [r_damage r_queue r_nexp r_later set_fault]. split; assumption.
@@ -245,9 +245,9 @@ Definition QInv (s : root) : Prop := (r_damage s <> [] -> r_nexp s = true) /\ r_
 Lemma root_damage_qinv s d : QInv s -> QInv (root_damage s d).
 Proof.
   intros [H1 H2]. unfold root_damage.
-  destruct (rs_contains rsfuel (r_damage s) d) as [[|]|].
+  destruct (rs_contains (r_fuel s) (r_damage s) d) as [[|]|].
   - split; assumption.
-  - destruct (rs_add rsfuel (r_damage s) d) as [x|].
+  - destruct (rs_add (r_fuel s) (r_damage s) d) as [x|].
     + unfold QInv; cbn [r_damage r_queue r_nexp set_flags set_damage]. split; [reflexivity|exact H2].
     + unfold QInv; cbn [r_damage r_queue r_nexp set_fault]. split; assumption.
   - unfold QInv; cbn [r_damage r_queue r_nexp set_fault]. split; assumption.
